@@ -618,4 +618,11 @@ def c07_i(ctx: Ctx):
     return cli.selection_discipline(ctx, "C07-i")
 
 
-RULES = [c07_a, c07_b, c07_c, c07_d, c07_e, c07_f, c07_g, c07_h, c07_i]
+@rule("C07-j")
+def c07_j(ctx: Ctx):
+    """Every token of the simple filter syntax takes part in the filter (no pairing that drops an odd last token)."""
+    from .lints import no_pairwise_zip_of_slices
+    return no_pairwise_zip_of_slices(ctx, "C07-j", ("signac.filterparse",))
+
+
+RULES = [c07_a, c07_b, c07_c, c07_d, c07_e, c07_f, c07_g, c07_h, c07_i, c07_j]
